@@ -28,6 +28,11 @@ def _views(devs, f, v, w, tag):
     if w > 0:
         eq(devs, f"{tag}.hex_str", f.hex_str, "0x" + want.hex())
     true(devs, f"{tag}.eq_bytes", f == want, "field != its own octets")
+    # comparison with raw octets is by octets: the same number in another width, or another number, is not equal
+    if w:
+        for other in (b"\x00" + want, want[1:], bytes([want[0] ^ 0x80]) + want[1:], want + b"\x00"):
+            if other != want:
+                true(devs, f"{tag}.ne_other_octets", not (f == other), f"field ({v}, width {w}) == octets {other.hex()}")
 
 
 def _ctors(u, v, w):
@@ -243,6 +248,8 @@ def check_assign(case):
             f.value = given
             v = int.from_bytes(raw[:w], "big")
             scribble(given)  # the caller goes on using its own buffer
+        # first thing after the assignment, before any other view is read: comparison with the expected octets
+        true(devs, "after_assign.eq_octets_first", f == v.to_bytes(w, "big"), f"step {i}: field != octets of the value just assigned (before any other view was read)")
         _views(devs, f, v, w, "after_assign")
         g = u.UnsignedByteField(v, w)
         true(devs, "after_assign.eq_fresh", f == g and hash(f) == hash(g), f"step {i}: not equal to a fresh field")
